@@ -868,6 +868,13 @@ class Engine:
             except _Break:
                 return
 
+    def sym_range(self, args):
+        """range(start, stop, step): step == 0 raises ValueError; otherwise one path per sign of the step"""
+        step = zint(args[2])
+        if self.branch(step == 0):
+            raise PyRaise('ValueError')
+        return SymRange(args[0], args[1], step, self.branch(step > 0))
+
     def x_For(self, n):
         k = self.loop_ids.get(id(n), -1)
         it = n.iter
@@ -875,11 +882,15 @@ class Engine:
         if isinstance(it, ast.Call) and ast.unparse(it.func) == 'range':
             args = [self.eval(a) for a in it.args]
             lo, hi = (0, args[0]) if len(args) == 1 else (args[0], args[1])
-            if len(args) == 3:
-                raise Unsupported('range step')
             conc = lambda v: z3.simplify(v).as_long() if z3.is_expr(v) and z3.is_int_value(z3.simplify(v)) else v
-            lo, hi = conc(lo), conc(hi)
-            get = lambda i: i
+            if len(args) == 3:
+                if all(isinstance(conc(a), int) for a in args):
+                    return self.for_concrete(n, list(range(*[conc(a) for a in args])))
+                seq = self.sym_range(args)
+                lo, hi, get = 0, seq.length, seq.elem
+            else:
+                lo, hi = conc(lo), conc(hi)
+                get = lambda i: i
         else:
             seq = self.eval(it)
             if isinstance(seq, (tuple, PyList, list)):
@@ -2421,6 +2432,16 @@ class Engine:
                 all(isinstance(x, (str, int)) for x in (args[0].items if isinstance(args[0], PyList) else args[0])))):
             items = () if not args else (args[0].items if isinstance(args[0], PyList) else args[0])
             return frozenset(items) if name == 'frozenset' else PyList(list(dict.fromkeys(items)))
+        if name == 'range' and 1 <= len(args) <= 3 and not kwargs:
+            if all(isinstance(a, int) for a in args):
+                return PyList(list(range(*args)))
+            if len(args) == 3:
+                return self.sym_range(args)
+            lo, hi = (0, args[0]) if len(args) == 1 else (args[0], args[1])
+            return SymRange(lo, hi, 1, True)
+        if name == 'enumerate' and 1 <= len(args) <= 2 and hasattr(args[0], 'length') and hasattr(args[0], 'elem') \
+                and all(isinstance(x, int) for x in args[1:]) and not (set(kwargs) - {'start'}):
+            return EnumSeq(args[0], args[1] if len(args) == 2 else kwargs.get('start', 0))
         if name == 'sorted' and len(args) == 1 and not kwargs:
             items = args[0].items if isinstance(args[0], PyList) else (list(args[0]) if isinstance(args[0], (tuple, list, set, frozenset, dict)) else None)
             if items is not None and (all(type(x) is str for x in items) or all(type(x) is int for x in items)):
@@ -2603,6 +2624,10 @@ class Engine:
 
     # ------------------------------------------------------------------ spec vocabulary
     def spec_call(self, ftxt, e):
+        if ftxt == 'bound' and len(e.args) == 1 and isinstance(e.args[0], ast.Constant) and isinstance(e.args[0].value, str):
+            # bound('x'): is the local x assigned on this path yet?  lets an invariant speak about a temporary only where the
+            # code has one (`(x == ...) if bound('x') else True`)
+            return self.lookup_scope(e.args[0].value) is not None
         if ftxt in ('forall', 'exists'):
             lam, lo, hi = e.args
             if not isinstance(lam, ast.Lambda):
@@ -2653,6 +2678,30 @@ class Engine:
 class Poison:
     def __init__(self, name):
         self.name = name
+
+
+class SymRange:
+    """range(start, stop, step) with symbolic bounds and a step whose sign is known on the path (only iterated / enumerated)"""
+
+    def __init__(self, start, stop, step, positive):
+        self.start, self.stop, self.step = zint(start), zint(stop), zint(step)
+        span = (self.stop - self.start) if positive else (self.start - self.stop)
+        mag = self.step if positive else -self.step
+        n = floordiv(span + mag - 1, mag)
+        self.length = z3.If(n > 0, n, z3.IntVal(0))
+
+    def elem(self, idx):
+        return self.start + zint(idx) * self.step
+
+
+class EnumSeq:
+    """enumerate(xs[, start]) of a sequence with length / elem"""
+
+    def __init__(self, base, first=0):
+        self.base, self.first, self.length = base, first, base.length
+
+    def elem(self, idx):
+        return (zint(idx) + self.first, self.base.elem(idx))
 
 
 class SeqView:
